@@ -14,6 +14,9 @@ the same clause, otherwise HarnessError -- a verdict that depends on anything bu
 from __future__ import annotations
 
 import logging
+import signal
+import sys
+import threading
 
 from vlib import det
 from vlib.core import FAIL, OK, SKIP, HarnessError
@@ -31,6 +34,113 @@ class quiet_rx_log:
     def __exit__(self, *a):
         _rx_log.setLevel(self.lvl)
         return False
+
+
+class Wedged(BaseException):
+    """Raised by the free-mode watchdog (BaseException so that library `except Exception` cannot swallow it)."""
+
+
+class watchdog:
+    """Wall-clock backstop for code run in the CALLING thread (DET free mode): after `seconds` a Wedged exception is
+    raised in the main thread.  The cases take well under a millisecond; this only turns a library that never returns
+    (or spins on a real timed wait while the fake clock stands still) into a verdict instead of a wedged shard.
+    No-op when not in the main thread."""
+
+    def __init__(self, seconds=20.0):
+        self.seconds = seconds
+        self.armed = False
+
+    def _fire(self, signum, frame):
+        raise Wedged(f"no return within {self.seconds}s of wall-clock time")
+
+    def __enter__(self):
+        if threading.current_thread() is threading.main_thread():
+            self.prev = signal.signal(signal.SIGALRM, self._fire)
+            signal.setitimer(signal.ITIMER_REAL, self.seconds)
+            self.armed = True
+        return self
+
+    def __exit__(self, *a):
+        if self.armed:
+            signal.setitimer(signal.ITIMER_REAL, 0)
+            signal.signal(signal.SIGALRM, self.prev)
+        return False
+
+
+def _import_time_objects():
+    """[(owner class | module dict, name, object)]: instances of reactivex classes bound at class or module level in the
+    reactivex.scheduler modules that (still) carry REAL threading primitives, i.e. were built at import, before
+    det.patched().  det itself replaces bare class-level locks and the `_global` / `_local` singletons; anything else of
+    that sort (e.g. a Trampoline stored as a class attribute) would make controlled threads block for real, or make a timed
+    wait sleep in real time while the fake clock stands still -- a hang, not a verdict."""
+    out = []
+
+    def candidate(v):
+        t = type(v)
+        return not isinstance(v, type) and getattr(t, "__module__", "").startswith("reactivex") and not callable(v)
+
+    for name, mod in sorted(sys.modules.items()):
+        if mod is None or not name.startswith("reactivex.scheduler"):
+            continue
+        for an, av in list(vars(mod).items()):
+            if candidate(av) and det.audit_object(av):
+                out.append((vars(mod), an, av))
+            elif isinstance(av, type) and getattr(av, "__module__", "").startswith("reactivex"):
+                for cn, cv in list(vars(av).items()):
+                    if candidate(cv) and det.audit_object(cv):
+                        out.append((av, cn, cv))
+    seen, uniq = set(), []
+    for o, n, v in out:
+        if (id(o), n) not in seen:
+            seen.add((id(o), n))
+            uniq.append((o, n, v))
+    return uniq
+
+
+class patched:
+    """det.patched() plus: import-time reactivex objects with real primitives (see _import_time_objects) are re-created
+    with their zero-argument constructor while patched, so they carry cooperative primitives but stay exactly as shared
+    as the library made them (a class-level object remains one object for all threads); restored on exit.  An object
+    that cannot be re-created is a fast HarnessError."""
+
+    def __init__(self, clock=None):
+        self.inner = det.patched(clock=clock)
+        self.undo = []
+
+    def __enter__(self):
+        env = self.inner.__enter__()
+        try:
+            for owner, name, obj in _import_time_objects():
+                try:
+                    new = type(obj)()
+                except Exception as e:  # noqa: BLE001
+                    raise HarnessError(f"import-time object {name}={obj!r} carries real locks and cannot be re-created: {e!r}") from e
+                self.undo.append((owner, name, obj))
+                if isinstance(owner, dict):
+                    owner[name] = new
+                else:
+                    setattr(owner, name, new)
+        except BaseException:
+            self.__exit__(None, None, None)
+            raise
+        return env
+
+    def __exit__(self, *exc):
+        for owner, name, obj in reversed(self.undo):
+            if isinstance(owner, dict):
+                owner[name] = obj
+            else:
+                setattr(owner, name, obj)
+        self.undo = []
+        return self.inner.__exit__(*exc)
+
+
+def audit(*objs):
+    """HarnessError (fast, instead of a hang) if an object under test still carries real threading primitives."""
+    for o in objs:
+        bad = det.audit_object(o)
+        if bad:
+            raise HarnessError(f"object under test {o!r} carries real (uncooperative) primitives: {bad}")
 
 
 def now_us():
@@ -64,7 +174,7 @@ def drive(case, build, judge, facts, nt_labels, kw, sig_suffix=""):
     is in this set.  `kw`: keyword arguments for det.run_program (max_steps, reuse_threads, ...)."""
     sched = case["sched"]
 
-    with quiet_rx_log(), det.patched() as env:
+    with quiet_rx_log(), patched() as env:
 
         def factory():
             env.clock.us = 0
